@@ -41,7 +41,15 @@ static char *vh_strstr(const char *h, const char *n) {
 }
 static int vh_strcmp(const char *a, const char *b) { size_t i = 0; while (a[i] && a[i] == b[i]) i++; return (unsigned char) a[i] - (unsigned char) b[i]; }
 static int vh_strncmp(const char *a, const char *b, size_t n) { for (size_t i = 0; i < n; i++) { if (a[i] != b[i] || !a[i]) return (unsigned char) a[i] - (unsigned char) b[i]; } return 0; }
+static int vh_atoi(const char *s) {
+	size_t i = 0; int neg = 0; long v = 0;
+	while (s[i] == ' ' || (s[i] >= 9 && s[i] <= 13)) i++;
+	if (s[i] == '-') { neg = 1; i++; } else if (s[i] == '+') i++;
+	while (s[i] >= '0' && s[i] <= '9' && v < 100000000L) { v = v * 10 + (s[i] - '0'); i++; }
+	return (int) (neg ? -v : v);
+}
 #ifndef REPLAY
+#define atoi vh_atoi
 #define memmove vh_memmove
 #define memcpy vh_memcpy
 #define strncpy vh_strncpy
